@@ -11,6 +11,8 @@ from .queries import QUERIES, ask
 def main():
     pool = json.load(open(sys.argv[1]))
     out = {}
+    if len(sys.argv) > 3 and sys.argv[3] == "reverse":      # history of the process must not matter either
+        pool = pool[::-1]
     for hx in pool:
         data = bytes.fromhex(hx)
         out[hx] = {}
